@@ -262,22 +262,32 @@ def check(ctx):
                     rv = st.get("rv") or {}
                     if rv.get("k") == "bin" and re.match(r"(Add|Sub)", str(rv.get("op"))) and st.get("lhs"):
                         moved.add(st["lhs"]["l"])
+            # (the sum lands in a temporary pair first: `_t = AddWithOverflow(i, 1); i = move _t.0`)
+            grew_ = True
+            while grew_:
+                grew_ = False
+                for b in body:
+                    for st in f.blocks[b]["stmts"]:
+                        rv = st.get("rv") or {}
+                        if rv.get("k") == "use" and isinstance(rv.get("op"), dict) and st.get("lhs") and not st["lhs"].get("p"):
+                            pl_ = rv["op"].get("move") or rv["op"].get("copy")
+                            if isinstance(pl_, dict) and pl_.get("l") in moved and st["lhs"]["l"] not in moved:
+                                moved.add(st["lhs"]["l"])
+                                grew_ = True
             counted = False
             for b in body:
                 t = f.blocks[b]["term"]
-                if t["k"] != "switch":
+                if t["k"] != "switch" or all(succ in body for (_l, succ) in f.succ_edges(b)):
                     continue
-                for (lab, succ) in f.succ_edges(b):
-                    if succ in body:
-                        continue
-                    try:
-                        o, _out = f.cond_struct(b, lab)
-                    except Exception:  # noqa
-                        continue
-                    if o[0] == "bin" and str(o[1]) in ("Lt", "Le", "Gt", "Ge", "Ne", "Eq"):
-                        txt = f.describe_origin(o, deep=3)
-                        if re.search(r"\b(Add|Sub)", txt):
-                            counted = True
+                pl_ = (t.get("discr") or {}).get("move") or (t.get("discr") or {}).get("copy")
+                ds = [d for d in f.defs.get(pl_["l"], []) if d[0] == "stmt"] if isinstance(pl_, dict) and not pl_.get("p") else []
+                for d in ds:
+                    rv = d[3]
+                    if rv.get("k") == "bin" and str(rv.get("op")) in ("Lt", "Le", "Gt", "Ge", "Ne", "Eq"):
+                        for side in ("a", "b"):
+                            sp = (rv.get(side) or {}).get("copy") or (rv.get(side) or {}).get("move")
+                            if isinstance(sp, dict) and sp.get("l") in moved:
+                                counted = True
             # structural descent: `while let Optional(inner) = cur { cur = inner }` — the loop variable is replaced by a part of the value it
             # pointed to (a finite tree)
             descends = False
